@@ -157,10 +157,30 @@ include hL hTab
 /-! #### suffix mode -/
 
 theorem acSuffix_states (q : Int) :
-    q ∈ akeys (acTable syms acc nodes true).1 ↔ ∃ v, v < nodes.length ∧ q = nat v := by
+    q ∈ akeys (acTable syms acc nodes true).1 ↔ ∃ v, Vis syms paths v ∧ q = nat v := by
   simp only [acTable, if_true]; exact hTab.keys q
 
-theorem acSuffix_step (contains : Bool) (v : Nat) (hv : v < nodes.length) (a : α) (ha : a ∈ syms) :
+theorem vis_lt {v : Nat} (hv : Vis syms paths v) : v < nodes.length := by
+  obtain ⟨x, hx, _⟩ := hv
+  rw [← hL.trie.len]; exact lt_of_getElem? hx
+
+theorem vis_root : Vis syms paths 0 := ⟨[], hL.trie.root, over_nil syms⟩
+
+/-- The goto function stays inside the visited nodes on symbols of the alphabet. -/
+theorem gotoN_vis (v : Nat) (hv : Vis syms paths v) (a : α) (ha : a ∈ syms) :
+    Vis syms paths (gotoN nodes v a) := by
+  obtain ⟨x, hx, hov⟩ := hv
+  obtain ⟨_, y, hy, hl⟩ := gotoN_spec hL v x hx a
+  refine ⟨y, hy, over_of_suffix syms ?_ hl.1⟩
+  rw [over_append]
+  exact ⟨hov, by simpa using ha⟩
+
+/-- The Aho–Corasick state of a word over the alphabet is a visited node. -/
+theorem acState_vis (w : List α) (hw : Over syms w) : Vis syms paths (acState nodes w) := by
+  obtain ⟨y, hy, hl⟩ := acState_spec hL w
+  exact ⟨y, hy, over_of_suffix syms hw hl.1⟩
+
+theorem acSuffix_step (contains : Bool) (v : Nat) (hv : Vis syms paths v) (a : α) (ha : a ∈ syms) :
     (acDFA syms acc nodes contains true).step? (some (nat v)) a = some (nat (gotoN nodes v a)) := by
   simp only [DFA.step?, DFA.row, DFA.row?, acDFA, acTable, if_true]
   rw [hTab.rows v hv]
@@ -181,9 +201,9 @@ theorem acSuffix_wf (contains : Bool) : (acDFA syms acc nodes contains true).WF 
     · intro a; simp [acRow, acDFA]
     · intro t ht
       simp only [acRow, avals_rowOf, List.mem_map] at ht
-      obtain ⟨a, _, rfl⟩ := ht
-      exact (acSuffix_states syms acc hL hTab _).mpr ⟨_, gotoN_lt syms acc hL hTab v hv a, rfl⟩
-  · exact (acSuffix_states syms acc hL hTab _).mpr ⟨0, hL.trie.pos, rfl⟩
+      obtain ⟨a, ha, rfl⟩ := ht
+      exact (acSuffix_states syms acc hL hTab _).mpr ⟨_, gotoN_vis syms acc hL hTab v hv a ha, rfl⟩
+  · exact (acSuffix_states syms acc hL hTab _).mpr ⟨0, vis_root syms acc hL hTab, rfl⟩
   · intro q hq
     cases contains with
     | true =>
@@ -196,9 +216,9 @@ theorem acSuffix_wf (contains : Bool) : (acDFA syms acc nodes contains true).WF 
 
 theorem acSuffix_run (contains : Bool) (w : List α) (hw : Over syms w) :
     (acDFA syms acc nodes contains true).run (some (nat 0)) w = some (nat (acState nodes w)) :=
-  (run_sim (acDFA syms acc nodes contains true) nat (gotoN nodes) (fun v => v < nodes.length)
+  (run_sim (acDFA syms acc nodes contains true) nat (gotoN nodes) (fun v => Vis syms paths v)
     (fun v a hv ha => ⟨acSuffix_step syms acc hL hTab contains v hv a ha,
-      gotoN_lt syms acc hL hTab v hv a⟩) w 0 hL.trie.pos hw).1
+      gotoN_vis syms acc hL hTab v hv a ha⟩) w 0 (vis_root syms acc hL hTab) hw).1
 
 theorem acSuffix_accepts (contains : Bool) (hne : [] ∉ pats) (w : List α) :
     (acDFA syms acc nodes contains true).accepts w = true ↔
@@ -207,7 +227,7 @@ theorem acSuffix_accepts (contains : Bool) (hne : [] ∉ pats) (w : List α) :
   · unfold DFA.accepts
     rw [show (acDFA syms acc nodes contains true).init = nat 0 from rfl,
       acSuffix_run syms acc hL hTab contains w hw]
-    have hlt := acState_lt hL w
+    have hlt := acState_vis syms acc hL hTab w hw
     have hfin : nat (acState nodes w) ∈ acc.2 ↔ ∃ p ∈ pats, p <:+ w := by
       rw [hTab.finals]
       constructor
@@ -227,34 +247,38 @@ theorem acSuffix_accepts (contains : Bool) (hne : [] ∉ pats) (w : List α) :
 
 /-! #### substring mode: absorbing end state -/
 
+omit hL hTab in
+/-- The states of substring mode: the visited nodes and the end state `len(labels)`. -/
+def SVis (syms : List α) (nodes : List (ACNode α)) (paths : List (List α)) (v : Nat) : Prop :=
+  Vis syms paths v ∨ v = nodes.length
+
 theorem acSub_finals (q : Int) :
-    q ∈ (acTable syms acc nodes false).2 ↔ ∃ v, v ≤ nodes.length ∧ q = nat v ∧ hot nodes v := by
+    q ∈ (acTable syms acc nodes false).2 ↔ ∃ v, SVis syms nodes paths v ∧ q = nat v ∧ hot nodes v := by
   simp only [acTable, Bool.false_eq_true, if_false, mem_sinsert, hTab.finals]
   constructor
   · rintro (h | ⟨v, hv, e, ho⟩)
-    · exact ⟨nodes.length, Nat.le_refl _, h, Or.inl rfl⟩
-    · exact ⟨v, Nat.le_of_lt hv, e, Or.inr ho⟩
+    · exact ⟨nodes.length, Or.inr rfl, h, Or.inl rfl⟩
+    · exact ⟨v, Or.inl hv, e, Or.inr ho⟩
   · rintro ⟨v, hv, e, ho | ho⟩
     · left; rw [e, ho]
-    · by_cases h : v = nodes.length
+    · rcases hv with hv | h
+      · right; exact ⟨v, hv, e, ho⟩
       · left; rw [e, h]
-      · right; exact ⟨v, by omega, e, ho⟩
 
 theorem acSub_states (q : Int) :
-    q ∈ akeys (acTable syms acc nodes false).1 ↔ ∃ v, v ≤ nodes.length ∧ q = nat v := by
+    q ∈ akeys (acTable syms acc nodes false).1 ↔ ∃ v, SVis syms nodes paths v ∧ q = nat v := by
   simp only [acTable, Bool.false_eq_true, if_false]
   rw [mem_akeys_foldl_ainsert, mem_akeys_ainsert, hTab.keys, hTab.finals]
   constructor
   · rintro (⟨v, hv, e, _⟩ | h | ⟨v, hv, e⟩)
-    · exact ⟨v, Nat.le_of_lt hv, e⟩
-    · exact ⟨nodes.length, Nat.le_refl _, h⟩
-    · exact ⟨v, Nat.le_of_lt hv, e⟩
-  · rintro ⟨v, hv, e⟩
-    by_cases h : v = nodes.length
+    · exact ⟨v, Or.inl hv, e⟩
+    · exact ⟨nodes.length, Or.inr rfl, h⟩
+    · exact ⟨v, Or.inl hv, e⟩
+  · rintro ⟨v, hv | h, e⟩
+    · right; right; exact ⟨v, hv, e⟩
     · right; left; rw [e, h]
-    · right; right; exact ⟨v, by omega, e⟩
 
-theorem acSub_lookup (v : Nat) (hv : v ≤ nodes.length) :
+theorem acSub_lookup (v : Nat) (hv : SVis syms nodes paths v) :
     alookup (nat v) (acTable syms acc nodes false).1 =
       some (if hot nodes v then rowOf syms fun _ => nat nodes.length else acRow syms nodes v) := by
   simp only [acTable, Bool.false_eq_true, if_false]
@@ -269,7 +293,10 @@ theorem acSub_lookup (v : Nat) (hv : v ≤ nodes.length) :
     · subst h2
       have : hot nodes nodes.length := Or.inl rfl
       simp [this]
-    · have hlt : v < nodes.length := by omega
+    · have hlt : Vis syms paths v := by
+        rcases hv with hv | hv
+        · exact hv
+        · exact absurd hv h2
       have h3 : ¬ nat nodes.length = nat v := fun e => h2 (nat_inj.mp e).symm
       have : ¬ hot nodes v := by
         rintro (h | h)
@@ -278,17 +305,17 @@ theorem acSub_lookup (v : Nat) (hv : v ≤ nodes.length) :
       simp only [h3, if_false, this]
       exact hTab.rows v hlt
 
-theorem subStep_le (v : Nat) (hv : v ≤ nodes.length) (a : α) : subStep nodes v a ≤ nodes.length := by
+theorem subStep_svis (v : Nat) (hv : SVis syms nodes paths v) (a : α) (ha : a ∈ syms) :
+    SVis syms nodes paths (subStep nodes v a) := by
   unfold subStep
   split
-  · exact Nat.le_refl _
+  · exact Or.inr rfl
   · rename_i h
-    have : v < nodes.length := by
-      apply Classical.byContradiction; intro h2
-      exact h (Or.inl (by omega))
-    exact Nat.le_of_lt (gotoN_lt syms acc hL hTab v this a)
+    rcases hv with hv | hv
+    · exact Or.inl (gotoN_vis syms acc hL hTab v hv a ha)
+    · exact absurd (Or.inl hv) h
 
-theorem acSub_step (contains : Bool) (v : Nat) (hv : v ≤ nodes.length) (a : α) (ha : a ∈ syms) :
+theorem acSub_step (contains : Bool) (v : Nat) (hv : SVis syms nodes paths v) (a : α) (ha : a ∈ syms) :
     (acDFA syms acc nodes contains false).step? (some (nat v)) a = some (nat (subStep nodes v a)) := by
   simp only [DFA.step?, DFA.row, DFA.row?, acDFA]
   rw [acSub_lookup syms acc hL hTab v hv]
@@ -312,14 +339,15 @@ theorem acSub_wf (contains : Bool) : (acDFA syms acc nodes contains false).WF :=
       by_cases h : hot nodes v
       · simp only [h, if_true, avals_rowOf, List.mem_map] at ht
         obtain ⟨_, _, rfl⟩ := ht
-        exact ⟨nodes.length, Nat.le_refl _, rfl⟩
+        exact ⟨nodes.length, Or.inr rfl, rfl⟩
       · simp only [h, if_false, acRow, avals_rowOf, List.mem_map] at ht
-        obtain ⟨a, _, rfl⟩ := ht
-        have : v < nodes.length := by
-          apply Classical.byContradiction; intro h2
-          exact h (Or.inl (by omega))
-        exact ⟨_, Nat.le_of_lt (gotoN_lt syms acc hL hTab v this a), rfl⟩
-  · exact (acSub_states syms acc hL hTab _).mpr ⟨0, Nat.zero_le _, rfl⟩
+        obtain ⟨a, ha, rfl⟩ := ht
+        have : Vis syms paths v := by
+          rcases hv with hv | hv
+          · exact hv
+          · exact absurd (Or.inl hv) h
+        exact ⟨_, Or.inl (gotoN_vis syms acc hL hTab v this a ha), rfl⟩
+  · exact (acSub_states syms acc hL hTab _).mpr ⟨0, Or.inl (vis_root syms acc hL hTab), rfl⟩
   · intro q hq
     cases contains with
     | true =>
@@ -332,10 +360,10 @@ theorem acSub_wf (contains : Bool) : (acDFA syms acc nodes contains false).WF :=
 
 theorem acSub_run (contains : Bool) (w : List α) (hw : Over syms w) :
     (acDFA syms acc nodes contains false).run (some (nat 0)) w = some (nat (w.foldl (subStep nodes) 0)) ∧
-      w.foldl (subStep nodes) 0 ≤ nodes.length :=
-  run_sim (acDFA syms acc nodes contains false) nat (subStep nodes) (fun v => v ≤ nodes.length)
+      SVis syms nodes paths (w.foldl (subStep nodes) 0) :=
+  run_sim (acDFA syms acc nodes contains false) nat (subStep nodes) (fun v => SVis syms nodes paths v)
     (fun v a hv ha => ⟨acSub_step syms acc hL hTab contains v hv a ha,
-      subStep_le syms acc hL hTab v hv a⟩) w 0 (Nat.zero_le _) hw
+      subStep_svis syms acc hL hTab v hv a ha⟩) w 0 (Or.inl (vis_root syms acc hL hTab)) hw
 
 /-- **State invariant, substring mode**: hot once a pattern has occurred, the Aho–Corasick state
 before. -/
@@ -424,13 +452,13 @@ theorem fromSubstrings_empty (syms : List α) (pats : List (List α)) (contains 
   unfold fromSubstrings; simp [h]
 
 theorem fromSubstrings_eq (syms : List α) (pats : List (List α)) (contains sf : Bool)
-    (hsyms : syms.Nodup) (hover : ∀ p ∈ pats, ∀ c ∈ p, c ∈ syms) (hne : [] ∉ pats) :
+    (hsyms : syms.Nodup) (hne : [] ∉ pats) :
     ∃ (nodes : List (ACNode α)) (paths : List (List α)) (acc : List (Int × List (α × Int)) × List Int),
       Linked pats nodes paths ∧ Tabulated syms pats nodes paths acc ∧
       fromSubstrings syms pats contains sf = build (acDFA syms acc nodes contains sf) := by
   obtain ⟨paths, hT⟩ := acTrie_spec pats
   obtain ⟨nodes, h2, hL⟩ := acFailBfs_spec hT
-  obtain ⟨acc, h3, hTab⟩ := acTransBfs_spec syms hL hsyms hover
+  obtain ⟨acc, h3, hTab⟩ := acTransBfs_spec syms hL hsyms
   refine ⟨nodes, paths, acc, hL, hTab, ?_⟩
   unfold fromSubstrings
   simp only [hne, if_false]
